@@ -532,5 +532,13 @@ def divide_outputs(
         if not isinstance(e, MailboxKilled):
             raise
     else:
-        for m in mbs_to_kill:
-            m.close()
+        try:
+            for m in mbs_to_kill:
+                m.close()
+        except Exception as e:
+            # One of the outputs was killed while we were closing (e.g. by a failing
+            # saver): kill the others too, or their readers would wait forever.
+            for m in mbs_to_kill:
+                m.kill_from_exception(e, reraise=False)
+            if not isinstance(e, MailboxKilled):
+                raise
